@@ -28,6 +28,30 @@ def run(ctx: Ctx):
     _sitebase.floors(ctx, sa)
     _sitebase.report(ctx, sa, {"unsupported": "supported", "unsound": "sound"},
                      {"unsupported": "site-has-handler"})
+    # A2 precondition: cattrs' native disambiguator takes the wire names from `.overrides` of the per-class
+    # structure function; the structure factory must hand back the generated function with camelCase renames
+    from .. import special
+    from . import _imgbase
+    im = _imgbase.image(ctx)
+    probs = [p for p in special.factory_wiring(im) if p[0].startswith("structure")]
+    for construct, msg, ln in probs:
+        ctx.fail("native-disambiguator-sees-wire-names", construct, msg, P_HOOKS, ln or None)
+    ren = special.folded_rename(im, "structure")
+    bad = 0
+    for s_ in sa.sites.values():
+        if s_.handler_kind != "native":
+            continue
+        from ..pymodel import members as _members, NONE as _NONE
+        for m_ in _members(s_.ty):
+            if m_ == _NONE:
+                continue
+            c = im.types.classes[m_[1]]
+            for f in c.fields:
+                ok = ren(c.name, f.name) == im.camel(f.name)
+                bad += not ok
+                ctx.check(ok, "native-disambiguator-sees-wire-names", f"{c.name}.{f.name}",
+                          f"the structure function of {c.name} carries rename={ren(c.name, f.name)!r} for {f.name}: the native "
+                          f"disambiguator of {show(s_.ty)} would test the wrong key", P_HOOKS, f.lineno)
     ctx.extra["sites"] = len(sa.sites)
     ctx.extra["handler_kinds"] = {}
     for s in sa.sites.values():
